@@ -141,7 +141,8 @@ def main():
         checks=checks,
         not_applicable=[dict(property_id=k, reason=v) for k, v in sorted(NA.items())],
         notes="Exit 2 of a check = inconclusive (timeout / memory cap / unwinding assertion / vacuity witness / non-replaying counterexample), "
-              "never success. KNOWN-FINDING lines come from /verif/known_findings.json (read-only at run time).")
+              "never success; in the thorough tier a thorough-only depth harness that exhausts its time/memory cap is printed and recorded as "
+              "UNEXPLORED and does not decide the exit status. KNOWN-FINDING lines come from /verif/known_findings.json (read-only at run time).")
     json.dump(m, open("/verif/MANIFEST.json", "w"), indent=1)
     print("MANIFEST.json written:", len(checks), "checks,", len(NA), "not applicable")
 
